@@ -114,17 +114,20 @@ def run(ctx):
     # as it is at the time of the call (spec/Trace_Store.tla)
     sessions = []
     for i in range(60 if q else 1500):
-        pool = [ev.T, ev.F, R, ev.rule('d'), ev.Not(ev.rule('n2')), ev.rule('zz')]
-        start = [(n, rng.choice(pool)) for n in rng.sample(['n1', 'n2', 'd', 'default'], rng.randint(0, 3))]
+        pool = [ev.T, ev.F, R, ev.rule('d'), ev.Not(ev.rule('n2')), ev.rule('zz'), ev.Not(ev.rule('zz'))]
+        # (a name that is referenced while undefined may become defined later - 'zz' too)
+        universe = ['n1', 'n2', 'd', 'default', 'zz']
+        start = [(n, rng.choice(pool)) for n in rng.sample(universe, rng.randint(0, 3))]
         dflt = rng.choice([None, ('name', 'd'), ('opt', 'd'), ('opt', None), ('check', R)])
         if cyclic(start, dflt):
             continue
-        sess = ec.Session(start, dflt, via=rng.choice(['rules_obj', 'dict']))
+        fb = rng.random() < 0.35 and bool(start)
+        sess = ec.Session(start, dflt, via=rng.choice(['rules_obj', 'dict']), file_backed=fb)
         for step in range(rng.randint(3, 7)):
             r = rng.random()
             if r < 0.45:
-                newr = [(n, rng.choice(pool)) for n in rng.sample(['n1', 'n2', 'd', 'default'], rng.randint(0, 2))]
-                ow = rng.random() < 0.4
+                newr = [(n, rng.choice(pool)) for n in rng.sample(universe, rng.randint(0 if not fb else 1, 2))]
+                ow = rng.random() < 0.4 and not fb
                 merged = newr if ow else list(dict(dict(sess.cur), **dict(newr)).items())
                 if cyclic(merged, dflt):
                     continue
@@ -134,6 +137,7 @@ def run(ctx):
             #  statement does not say which of the two "is configured" then)
             for _ in range(rng.randint(1, 2)):
                 sess.enforce({'by': 'name', 'name': rng.choice(['n1', 'n2', 'd', 'zz', 'default'])}, {}, {'roles': rng.choice([[], ['r']])})
+        sess.close()
         sessions.append(sess)
     for si, evi in ec.judge_sessions(ctx, sessions):
         ctx.violation('session:decision-ignores-current-rule-store', 'after the rule store was changed through the API a decision is not the one the current store gives',
